@@ -490,47 +490,90 @@ def _collection_spec(fa, expr, at, depth=4):
         if len(adds) != 1 or len(muts) != 1:
             return None
         st = fa.stmt_of(adds[0])
-        if not isinstance(st, ast.Expr):
+        lf = _loop_filter(fa, st, name)
+        if lf is None:
             return None
-        atoms = []
-        cur = st
-        while True:
-            par = fa.pm.get(cur)
-            if isinstance(par, ast.If):
-                blk = par.body if cur in par.body else par.orelse
-                atoms = _split_atoms(par.test, cur in par.body) + atoms
-            elif isinstance(par, ast.For):
-                if cur not in par.body:
-                    return None
-                blk = par.body
-            else:
-                return None
-            # what precedes the statement in its block: only guards `if c: continue`
-            pre = []
-            for sib in A.sig_stmts(blk):
-                if sib is cur:
-                    break
-                if isinstance(sib, ast.If) and not A.sig_stmts(sib.orelse) and len(A.sig_stmts(sib.body)) == 1 and isinstance(A.sig_stmts(sib.body)[0], ast.Continue):
-                    pre += _split_atoms(sib.test, False)
-                elif isinstance(sib, (ast.Assign, ast.AnnAssign, ast.AugAssign, ast.Expr)) and name not in A.names_in(sib):
-                    continue  # work done for every element: it does not decide whether the element is taken
-                else:
-                    return None
-            after = A.sig_stmts(blk)[A.sig_stmts(blk).index(cur) + 1:]
-            if any(not isinstance(x, ast.Continue) for x in after):
-                return None
-            atoms = pre + atoms
-            if isinstance(par, ast.For):
-                break
-            cur = par
-        loop = par
-        if loop.orelse or not isinstance(loop.target, ast.Name) or not fa.nodes(loop):
-            return None
-        if any(isinstance(x, (ast.Break, ast.Return)) for x in A.walk_local(loop)):
-            return None
-        ln = fa.nodes(loop)[0]
+        (loop, atoms, ln) = lf
         return {"iter": loop.iter, "iter_at": ln, "var": loop.target.id, "elt": adds[0].args[0], "atoms": atoms, "at": ln}
     return None
+
+
+def _loop_filter(fa, st, name=None):
+    """For an expression statement `st` that sits in ONE `for` loop whose body only filters (nested ifs around it, guards
+    `if c: continue` before it, per-element work that does not touch `name`): (the loop, the filter as atoms (test, polarity)
+    that hold when `st` is executed, the loop's CFG node); else None."""
+    if not isinstance(st, ast.Expr):
+        return None
+    atoms = []
+    cur = st
+    while True:
+        par = fa.pm.get(cur)
+        if isinstance(par, ast.If):
+            blk = par.body if cur in par.body else par.orelse
+            atoms = _split_atoms(par.test, cur in par.body) + atoms
+        elif isinstance(par, ast.For):
+            if cur not in par.body:
+                return None
+            blk = par.body
+        else:
+            return None
+        # what precedes the statement in its block: only guards `if c: continue`
+        pre = []
+        for sib in A.sig_stmts(blk):
+            if sib is cur:
+                break
+            if isinstance(sib, ast.If) and not A.sig_stmts(sib.orelse) and len(A.sig_stmts(sib.body)) == 1 and isinstance(A.sig_stmts(sib.body)[0], ast.Continue):
+                pre += _split_atoms(sib.test, False)
+            elif isinstance(sib, (ast.Assign, ast.AnnAssign, ast.AugAssign, ast.Expr)) and (name is None or name not in A.names_in(sib)):
+                continue  # work done for every element: it does not decide whether the element is taken
+            else:
+                return None
+        after = A.sig_stmts(blk)[A.sig_stmts(blk).index(cur) + 1:]
+        if any(not isinstance(x, ast.Continue) for x in after):
+            return None
+        atoms = pre + atoms
+        if isinstance(par, ast.For):
+            break
+        cur = par
+    loop = par
+    if loop.orelse or not isinstance(loop.target, ast.Name) or not fa.nodes(loop):
+        return None
+    if any(isinstance(x, (ast.Break, ast.Return)) for x in A.walk_local(loop)):
+        return None
+    return (loop, atoms, fa.nodes(loop)[0])
+
+
+def _inline_predicate(fa, t):
+    """`pred(x)` where pred is a function nested in `fa`'s function that only computes a value (assignments to temporaries bound
+    once, one final return): the returned expression with the temporaries substituted and the parameter replaced by the
+    argument; anything else is returned as it is."""
+    import copy
+    if not (isinstance(t, ast.Call) and isinstance(t.func, ast.Name) and t.func.id in fa.fi.nested and not t.keywords):
+        return t
+    sub = fa.fi.nested[t.func.id].node
+    a_ = sub.args
+    if a_.vararg or a_.kwarg or a_.kwonlyargs or len(a_.posonlyargs + a_.args) != len(t.args):
+        return t
+    body = [st for st in sub.body if not (isinstance(st, ast.Expr) and isinstance(st.value, ast.Constant))]
+    if not body or not isinstance(body[-1], ast.Return) or body[-1].value is None:
+        return t
+    env = {p_.arg: arg for p_, arg in zip(a_.posonlyargs + a_.args, t.args)}
+    for st in body[:-1]:
+        tg = st.targets if isinstance(st, ast.Assign) else [st.target] if isinstance(st, ast.AnnAssign) and st.value is not None else None
+        if tg is None or len(tg) != 1 or not isinstance(tg[0], ast.Name) or tg[0].id in env:
+            return t
+        env[tg[0].id] = st.value
+
+    class L(ast.NodeTransformer):
+        def __init__(self, depth):
+            self.depth = depth
+
+        def visit_Name(self, n):
+            if isinstance(n.ctx, ast.Load) and n.id in env and self.depth > 0:
+                return L(self.depth - 1).visit(copy.deepcopy(env[n.id]))
+            return n
+
+    return ast.fix_missing_locations(L(8).visit(copy.deepcopy(body[-1].value)))
 
 
 def _rename(node, old, new):
@@ -1390,6 +1433,15 @@ def check_recompute_from_scratch(ck, R):
 
 
 # --------------------------------------------------------------------------------- C01.R4
+def _orderless(e):
+    """`e` without the wrappers that only fix an order or make a copy (sorted / list / tuple / set / frozenset / reversed / iter
+    of one collection): the same elements are iterated"""
+    while isinstance(e, ast.Call) and isinstance(e.func, ast.Name) and e.func.id in ("sorted", "list", "tuple", "set", "frozenset", "reversed", "iter") \
+            and len(e.args) == 1 and not isinstance(e.args[0], ast.Starred):
+        e = e.args[0]
+    return e
+
+
 def check_descent_complete(ck, R):
     ck.rule(R, "transitive descent is complete: memento rules visit required and detected dependencies, plain-function "
                "rules every dotted name; every resolved rule is descended into; the only pruning is 'already collected', "
@@ -1408,7 +1460,10 @@ def check_descent_complete(ck, R):
             if l is None or id(l) not in ln or sym is None or not isinstance(l.target, ast.Name) or A.norm(sym) != l.target.id:
                 out.append((c, l, set()))
                 continue
-            out.append((c, l, _sources(fx, l.iter, ln[id(l)])))
+            srcs = set()
+            for (e_, a_) in _alternatives(fx, _orderless(l.iter), ln[id(l)]):
+                srcs.add(fx.xnorm(_orderless(e_), a_))
+            out.append((c, l, srcs))
         return out
 
     mv = visits(m)
@@ -3273,9 +3328,9 @@ def check_dotted_names(ck, R):
         if isinstance(x, ast.Attribute) and x.attr in ACC and isinstance(x.value, ast.Call) and A.call_attr(x.value) == cls.name:
             return True
         if isinstance(e, ast.Name):
-            alts_ = _alternatives(fa, e, at)
-            if alts_ and not any(isinstance(a_, ast.Name) and a_.id == e.id for (a_, _n) in alts_):
-                return all(is_res(a_, n_, depth - 1) for (a_, n_) in alts_)
+            # every binding that reaches here is the set (an augmented assignment reduces it in place: still the same set)
+            ds = [d for d in fa.df.reaching(at, e.id) if d.kind != "aug"]
+            return bool(ds) and all(d.kind == "assign" and d.value is not None and is_res(d.value, d.node, depth - 1) for d in ds)
         return False
 
     # the locals that stand for that set
@@ -3289,7 +3344,7 @@ def check_dotted_names(ck, R):
             if not e.args:
                 return set()
             return local_sources(e.args[0], at, depth - 1) if len(e.args) == 1 else {"<?>"}
-        if isinstance(e, ast.BinOp) and isinstance(e.op, ast.BitOr):
+        if isinstance(e, ast.BinOp) and isinstance(e.op, (ast.BitOr, ast.Add)):
             return local_sources(e.left, at, depth - 1) | local_sources(e.right, at, depth - 1)
         if isinstance(e, ast.Call) and A.call_attr(e) == "union" and A.call_recv(e) is not None:
             out = local_sources(A.call_recv(e), at, depth - 1)
@@ -3324,27 +3379,87 @@ def check_dotted_names(ck, R):
         return set(ch) if ch else {"<not a plain attribute of fn.__code__>: " + A.norm(e)}
 
     def first_component_of(e, var):
-        return A.norm(e) in ("%s[0:%s.find('.')]" % (var, var), "%s[:%s.find('.')]" % (var, var), "%s.split('.')[0]" % var,
-                             "%s.split('.', 1)[0]" % var, "%s.partition('.')[0]" % var)
+        """'slice' for x[:x.find('.')] (meaningful only for a dotted x), 'split' for x.split('.')[0] / x.partition('.')[0] (the
+        name itself when there is no dot), else None"""
+        t = A.norm(e)
+        if t in ("%s[0:%s.find('.')]" % (var, var), "%s[:%s.find('.')]" % (var, var), "%s[0:%s.index('.')]" % (var, var), "%s[:%s.index('.')]" % (var, var)):
+            return "slice"
+        if t in ("%s.split('.')[0]" % var, "%s.split('.', 1)[0]" % var, "%s.partition('.')[0]" % var, "%s.split('.', maxsplit=1)[0]" % var):
+            return "split"
+        return None
 
-    def chains_rooted_at_locals(arg, at):
-        """is `arg` {x for x in RES if ['.' in x and] <first component of x> in <the locals>}?"""
-        spec = _collection_spec(fa, arg, at)
-        if spec is None or not is_res(spec["iter"], spec["iter_at"]) or A.norm(spec["elt"]) != spec["var"]:
-            return False
-        member = 0
-        for (t, pol) in spec["atoms"]:
-            if isinstance(t, ast.Compare) and len(t.ops) == 1 and isinstance(t.ops[0], (ast.In, ast.NotIn)):
+    def dnf(t, pol):
+        """a test taken with a polarity as alternatives of [(atom, polarity)]"""
+        if isinstance(t, ast.UnaryOp) and isinstance(t.op, ast.Not):
+            return dnf(t.operand, not pol)
+        if isinstance(t, ast.BoolOp):
+            parts = [dnf(v, pol) for v in t.values]
+            if (isinstance(t.op, ast.And) and pol) or (isinstance(t.op, ast.Or) and not pol):
+                out = [[]]
+                for p_ in parts:
+                    out = [a_ + b_ for a_ in out for b_ in p_]
+                return out
+            return [c_ for p_ in parts for c_ in p_]
+        return [[(t, pol)]]
+
+    local_sets = []   # where the elements of every set used as "the locals" come from
+
+    def selection(atoms, var, at):
+        """Which elements `var` of the name set a filter selects for removal: None if it is not "the first component is a local"
+        (for all its alternatives), else {'L': plain locals are covered, 'C': chains rooted at locals are covered}."""
+        alts_ = [[]]
+        for (t, pol) in atoms:
+            alts_ = [a_ + b_ for a_ in alts_ for b_ in dnf(t, pol)]
+        cover = {"L": False, "C": False}
+        for conj in alts_:
+            dot_guard, kinds = False, []
+            for (t, pol) in conj:
+                if not (isinstance(t, ast.Compare) and len(t.ops) == 1 and isinstance(t.ops[0], (ast.In, ast.NotIn))):
+                    return None
                 pol_in = pol if isinstance(t.ops[0], ast.In) else not pol
-                if pol_in and A.norm(t.left) in ("'.'", '"."') and A.norm(t.comparators[0]) == spec["var"]:
+                if not pol_in:
+                    return None
+                if A.norm(t.left) in ("'.'", '"."') and A.norm(t.comparators[0]) == var:
+                    dot_guard = True
                     continue
-                if pol_in and first_component_of(t.left, spec["var"]) and local_sources(t.comparators[0], spec["at"]) in [WANT] + subtracted_sets:
-                    member += 1
-                    continue
-            return False
-        return member >= 1
+                fc = "plain" if A.norm(t.left) == var else first_component_of(t.left, var)
+                if fc is None:
+                    return None
+                local_sets.append(local_sources(t.comparators[0], at))
+                kinds.append(fc)
+            if not kinds or ("slice" in kinds and not dot_guard):
+                return None   # x[:x.find('.')] of a name without a dot is the name minus its last character
+            if "plain" in kinds or ("split" in kinds and not dot_guard):
+                cover["L"] = True
+            if "slice" in kinds or "split" in kinds:
+                cover["C"] = True
+        return cover
 
-    reductions = []  # (statement, subtracted expression or None)
+    def copy_of_res(e, at):
+        """list(RES) / set(RES) / tuple(RES) / sorted(RES) / RES.copy(): a snapshot to iterate while RES is reduced"""
+        for (x, a_) in _alternatives(fa, e, at):
+            if isinstance(x, ast.Call) and isinstance(x.func, ast.Name) and x.func.id in ("list", "set", "tuple", "sorted", "frozenset") and len(x.args) == 1 and is_res(x.args[0], a_):
+                continue
+            if isinstance(x, ast.Call) and A.call_attr(x) == "copy" and not x.args and A.call_recv(x) is not None and is_res(A.call_recv(x), a_):
+                continue
+            return False
+        return True
+
+    # every reduction of the name set: ('subtract', stmt, set expression) / ('select', stmt, cover or None) / ('other', stmt)
+    reductions = []
+
+    def reduce_by(st, arg, at0):
+        spec_ = _collection_spec(fa, arg, at0) if arg is not None else None
+        if arg is None:
+            reductions.append(("other", st, None))
+        elif spec_ is not None:
+            if is_res(spec_["iter"], spec_["iter_at"]) and A.norm(spec_["elt"]) == spec_["var"]:
+                reductions.append(("select", st, selection(spec_["atoms"], spec_["var"], spec_["at"])))
+            else:
+                reductions.append(("other", st, None))
+        else:
+            reductions.append(("subtract", st, arg))
+
     for st in fa.stmts():
         if not fa.nodes(st):
             continue
@@ -3353,37 +3468,39 @@ def check_dotted_names(ck, R):
                 and any(isinstance(t, ast.Name) and t.id in RESNAMES for t in (st.targets if isinstance(st, ast.Assign) else [st.target])):
             if not is_res(st.value, at0):
                 if isinstance(st.value, ast.BinOp) and isinstance(st.value.op, ast.Sub) and is_res(st.value.left, at0):
-                    reductions.append((st, st.value.right))
+                    reduce_by(st, st.value.right, at0)
                 else:
-                    reductions.append((st, None))
+                    reduce_by(st, None, at0)
         if isinstance(st, ast.AugAssign):
             tg = st.target
             hit = (isinstance(tg, ast.Name) and tg.id in RESNAMES) or \
                 (isinstance(tg, ast.Attribute) and is_res(ast.copy_location(ast.Attribute(value=tg.value, attr=tg.attr, ctx=ast.Load()), tg), at0))
             if hit:
-                reductions.append((st, st.value if isinstance(st.op, ast.Sub) else None))
+                reduce_by(st, st.value if isinstance(st.op, ast.Sub) else None, at0)
         if isinstance(st, ast.Expr) and isinstance(st.value, ast.Call) and A.call_recv(st.value) is not None and is_res(A.call_recv(st.value), at0) \
                 and A.call_attr(st.value) in ("difference_update", "intersection_update", "discard", "remove", "clear", "pop", "symmetric_difference_update"):
-            reductions.append((st, st.value.args[0] if A.call_attr(st.value) == "difference_update" and len(st.value.args) == 1 else None))
-    klass = {}
+            c_ = st.value
+            if A.call_attr(c_) == "difference_update" and len(c_.args) == 1:
+                reduce_by(st, c_.args[0], at0)
+            elif A.call_attr(c_) in ("discard", "remove") and len(c_.args) == 1 and isinstance(c_.args[0], ast.Name):
+                # `for x in list(RES): [if ...:] RES.discard(x)`: a selection of RES's own elements, removed one by one
+                lf = _loop_filter(fa, st)
+                if lf is not None and lf[0].target.id == c_.args[0].id and copy_of_res(lf[0].iter, lf[2]):
+                    reductions.append(("select", st, selection(lf[1], lf[0].target.id, lf[2])))
+                else:
+                    reductions.append(("other", st, None))
+            else:
+                reductions.append(("other", st, None))
     srcs = set()
-    # the sets subtracted as a whole (what the function treats as its locals, judged separately below)
-    subtracted_sets = [local_sources(arg, fa.nodes(st)[0]) for (st, arg) in reductions if arg is not None and _collection_spec(fa, arg, fa.nodes(st)[0]) is None]
-    for (st, arg) in reductions:
-        at_ = fa.nodes(st)[0]
-        spec_ = _collection_spec(fa, arg, at_) if arg is not None else None
-        if arg is None:
-            klass[id(st)] = "other"
-        elif chains_rooted_at_locals(arg, at_):
-            klass[id(st)] = "chains"
-        elif spec_ is not None:
-            # some selection of RES's own elements is removed, but not by first-component membership
-            klass[id(st)] = "chains?" if is_res(spec_["iter"], spec_["iter_at"]) and A.norm(spec_["elt"]) == spec_["var"] else "other"
-        else:
-            s_ = local_sources(arg, at_)
-            klass[id(st)] = "locals" if s_ == WANT else "locals?"
-            srcs |= s_
-    okl = "locals" in klass.values() and "locals?" not in klass.values()
+    for (kind, st, arg) in reductions:
+        if kind == "subtract":
+            local_sets.append(local_sources(arg, fa.nodes(st)[0]))
+    for s_ in local_sets:
+        srcs |= s_
+    selects = [c_ for (kind, st, c_) in reductions if kind == "select"]
+    covers_l = any(kind == "subtract" for (kind, _st, _a) in reductions) or any(c_ and c_["L"] for c_ in selects)
+    covers_c = any(c_ and c_["C"] for c_ in selects)
+    okl = bool(local_sets) and all(s_ == WANT for s_ in local_sets)
     ck.ob(R, fa.key(None, "locals-removed"), okl, "exactly co_varnames and co_cellvars are treated as local" if okl else
           "the set of names treated as local is %s (expected co_varnames and co_cellvars): globals are dropped or locals kept" % sorted(srcs), fa.where())
     # inspect.getsource looks through functools.wraps wrappers, so the names in `source` are those of the innermost wrapped
@@ -3393,17 +3510,17 @@ def check_dotted_names(ck, R):
     ck.ob(R, fa.key(None, "locals-of-the-function-read"), oku, "the locals are those of the function whose source is read (looked through its wrappers)" if oku else
           "the source is read through the function's wrappers (inspect.getsource follows __wrapped__) but the locals removed are those of the "
           "wrapper itself: for a decorated helper the names of its own locals stay in the set and real references can be dropped", fa.where())
-    okd = bool({"locals", "locals?"} & set(klass.values())) and bool({"chains", "chains?"} & set(klass.values()))
+    okd = covers_l and (covers_c or bool(selects))
     ck.ob(R, fa.key(None, "difference"), okd, "locals and chains rooted at locals are subtracted" if okd else
           "list_dotted_names no longer subtracts both locals and local-rooted chains", fa.where())
     # chains are removed only when their FIRST COMPONENT is a local (membership of the part before
     # the first '.', not a string-prefix test)
-    okc = "chains" in klass.values() and "chains?" not in klass.values()
+    okc = covers_c and all(c_ is not None for c_ in selects)
     ck.ob(R, fa.key(None, "local-rooted-chains"), okc, "a dotted name is dropped only when its first component is a local" if okc else
           "dotted names are not filtered by membership of their first component in the locals (e.g. a string-prefix test): "
           "`steps.base` is dropped when a parameter is called `step`, and the dependency disappears from the closure", fa.where())
     # nothing else narrows the name set between extraction and return
-    narrow = [st for (st, arg) in reductions if klass[id(st)] == "other"]
+    narrow = [st for (kind, st, _a) in reductions if kind == "other"]
     ck.ob(R, fa.key(None, "no-further-narrowing"), not narrow, "the extracted names are only reduced by the locals" if not narrow else
           "the extracted name set is narrowed further (`%s`): names the function really refers to (e.g. only inside a nested lambda or generator) "
           "are dropped, and edits to them never change the version" % A.short(narrow[0], 70), fa.where(narrow[0] if narrow else None))
@@ -3424,6 +3541,13 @@ def check_dotted_names(ck, R):
     ini = FA(ck, MF + ".__init__")
     dd = [s for s in ini.stmts(ast.Assign) if any(A.dotted(t) == "self.detected_dependencies" for t in s.targets)]
     oc = ini.outcomes("self.detected_dependencies") if dd else None
+    # stored through a local that is not re-bound afterwards: what that local finally holds, per path class
+    if dd and all(isinstance(s_.value, ast.Name) and ini.df.is_local(s_.value.id) for s_ in dd) and len({s_.value.id for s_ in dd}) == 1 \
+            and oc is not None and {txt for (_l, txt) in oc} == {dd[0].value.id}:
+        loc_ = dd[0].value.id
+        after = ini.cfg.reach(ini.nodes_all(dd), include_start=False)
+        if not any(d_.name == loc_ for nid in after for d_ in ini.df.gen.get(nid, [])):
+            oc = ini.outcomes(loc_)
     okdd = bool(oc) and {txt for (_l, txt) in oc} == {"list_dotted_names(self.src_fn)", "set()"} \
         and all((("auto_dependencies", True) in l_) == (txt != "set()") and (("auto_dependencies", False) in l_) == (txt == "set()") for (l_, txt) in oc)
     ck.ob(R, ini.key(None, "detected"), okdd, "detected dependencies = dotted names of the source function (when enabled)" if okdd else
@@ -3445,11 +3569,26 @@ def check_graph_derivation(ck, R):
     ck.ob(R, t.key(None), ok, "transitive = every rule with a function, except self" if ok else
           "transitive_memento_fn_dependencies is not {rule.memento_fn for all rules with a function, minus self}", t.where())
     d = FA(ck, "dependency_graph.DependencyGraph.direct_memento_fn_dependencies")
-    import re as _re
-    txt = A.norm(d.node)
-    mvar = _re.search(r"\b(\w+)\.first_level\b", txt)
-    rv = mvar.group(1) if mvar else "rule"
-    okd = mvar is not None and (("%s.memento_fn != self.memento_fn" % rv) in txt or ("self.memento_fn != %s.memento_fn" % rv) in txt) and "self._all_rules" in txt
+    rd = d.one(d.returns(), "return")
+    dspec = _collection_spec(d, rd.value, d.nodes(rd)[0]) if rd.value is not None and d.nodes(rd) else None
+    if dspec is not None:
+        # decided on WHAT COLLECTION is returned: the rules' functions, filtered by exactly "has a function, not self, first level"
+        # (a predicate moved into a local function is read through)
+        atoms = []
+        for (t, pol) in dspec["atoms"]:
+            t2 = _inline_predicate(d, t)
+            atoms += _split_atoms(t2, pol) if t2 is not t else [(t, pol)]
+        lits = _spec_literals(d, dict(dspec, atoms=atoms))
+        need_ = {("hasattr(_c0, 'memento_fn')", True), ("_c0.memento_fn == self.memento_fn", False), ("_c0.first_level", True)}
+        okd = d.xnorm(dspec["iter"], dspec["iter_at"]) == "self._all_rules" and A.norm(_rename(dspec["elt"], dspec["var"], "_c0")) == "_c0.memento_fn" \
+            and need_ <= lits and lits - need_ <= {("_c0.memento_fn is None", False)}
+    else:
+        import re as _re
+        txt = A.norm(d.node)
+        mvar = _re.search(r"\b(\w+)\.first_level\b", txt)
+        rv = mvar.group(1) if mvar else "rule"
+        okd = mvar is not None and (("%s.memento_fn != self.memento_fn" % rv) in txt or ("self.memento_fn != %s.memento_fn" % rv) in txt) and "self._all_rules" in txt \
+            and ("not %s.first_level" % rv) not in txt and " or " not in txt
     ck.ob(R, d.key(None), okd, "direct = first-level rules with a function, except self" if okd else
           "direct_memento_fn_dependencies is not derived from first_level rules", d.where())
     ini = FA(ck, "dependency_graph.DependencyGraph.__init__")
